@@ -364,6 +364,59 @@ def check(F, rep, tier):
                 else:
                     rep.undecided("R05.10", "value-origin:" + nm, "cannot relate the value handed to parse_value to a split of the spec (%s)" % sorted(how), site)
         rep.floor("R05.10", "parse_value calls in " + nm, nval, 1)
+    # ---- R05.13 --tag-version replaces the whole version: each field is the parsed tag's field, nothing of the detected one survives ----
+    atv = [f_ for p_, f_ in F.fns.items() if p_.endswith("ZervVars::apply_tag_version_overrides") and f_.kind != "closure"]
+    if rep.anchor("R05.13", "ZervVars::apply_tag_version_overrides", atv):
+        rep.fn_seen(atv[0])
+        ai = mir.inlined(F, atv[0], depth=2, keep=("parse_with_format", "from"))
+        VF = ("epoch", "major", "minor", "patch", "pre_release", "post", "dev")
+        nvf = 0
+        for bi, si, st in ai.stmts():
+            if st[0] != "=" or len(st[1]) < 2 or st[1][0] != 1: continue
+            fl = [e[2] for e in st[1][1:] if not isinstance(e, str) and e[0] == "f"]
+            if not fl or fl[-1] not in VF or st[2][0] != "use": continue
+            nvf += 1
+            site = "%s bb%d line %s" % (ai.where(), bi, ai.blocks[bi]["line"])
+            own = False; comb = set()
+            def walk(g_, op, depth=0, seen=None):
+                nonlocal own
+                seen = seen if seen is not None else set()
+                if depth > 6: return
+                for o in mir.trace_op(g_, op, transparent=()):
+                    k = (o.kind, str(o.data))
+                    if k in seen: continue
+                    seen.add(k)
+                    if o.kind == "param" and o.data == 1 and o.fields()[-1:] == [fl[-1]]: own = True
+                    if o.kind == "call":
+                        t2 = o.fn.blocks[o.data]["t"]; comb.add((mir.callee(t2) or "?").rsplit("::", 1)[-1])
+                        for a in t2[2]: walk(o.fn, a, depth + 1, seen)
+            walk(ai, st[2][1])
+            if own: rep.bad("R05.13", "tag-override-keeps-detected:" + fl[-1], "--tag-version fills %s from the parsed tag combined with the value already detected (%s): a final tag given as override keeps the detected pre-release / epoch, so the result is not the given version (1.0.0 becomes 1.0.0-rc.2)" % (fl[-1], sorted(comb)), site)
+            else: rep.ok("R05.13", "--tag-version sets %s from the parsed tag alone" % fl[-1], sample=site, nontrivial_key="tv" + fl[-1])
+        rep.floor("R05.13", "version fields written by apply_tag_version_overrides", nvf, 7)
+    # ---- R05.12 per index: override, then bump, in ONE step per spec, lower index first; no spec is dropped before the duplicate check ----
+    pss = zfn(F, "<impl crate::version::zerv::core::Zerv>::process_schema_section")
+    if rep.anchor("R05.12", "Zerv::process_schema_section", pss):
+        rep.fn_seen(pss)
+        psi = mir.inlined(F, pss, depth=2, keep=("process_schema_component", "parse_and_validate_process_specs"))
+        calls_ = [(h, bi, t) for h in [psi] + mir.closures_in(F, psi) for bi, t in h.calls() if (mir.callee(t) or "").endswith("::process_schema_component") and len(t[2]) >= 5]
+        split = []
+        for h, bi, t in calls_:
+            for nm, a in (("override", t[2][3]), ("bump", t[2][4])):
+                os_ = mir.trace_op(h, a)
+                if os_ and all((o.kind == "agg" and mir.rv_at(o.fn, *o.data)[1].get("variant") == "None") or (o.kind == "const" and isinstance(o.data, dict) and o.data.get("v") == "None") for o in os_):
+                    split.append((nm, "%s bb%d line %s" % (h.where(), bi, h.blocks[bi]["line"])))
+        if not calls_: rep.undecided("R05.12", "section-loop-shape", "process_schema_section does not call process_schema_component", pss.where())
+        elif split or len(calls_) > 1:
+            rep.bad("R05.12", "override-and-bump-split", "process_schema_section applies the overrides and the bumps of a section in separate steps (%d calls of process_schema_component; constant None passed for %s): an override at a higher index is applied before, and then reset by, a bump at a lower index (`--core 2=9 --bump-core 1` gives x.y.0 where `--patch 9 --bump-minor` gives x.y.9)" % (len(calls_), sorted({x[0] for x in split})), (split[0][1] if split else pss.where()))
+        else: rep.ok("R05.12", "each spec's override and bump are handed to process_schema_component together, once", nontrivial_key="onestep")
+    rts = F.fn("crate::cli::version::args::resolved::TemplateResolver::resolve_template_strings")
+    if rep.anchor("R05.12", "TemplateResolver::resolve_template_strings", rts):
+        rep.fn_seen(rts)
+        DROP = ("::contains", "::dedup", "::dedup_by", "::dedup_by_key", "::retain", "HashSet<T, S>::insert", "BTreeSet<T, A>::insert", "::sort", "::sort_unstable", "::reverse", "::rev", "::filter", "::skip", "::take", "::unique", "IndexSet<T, S>::insert")
+        hits = sorted({(mir.callee(t) or "").rsplit("::", 1)[-1] for h in [rts] + mir.closures_in(F, rts) + F.children(rts.path) for bi, t in h.calls() if any((mir.callee(t) or "").endswith(x) for x in DROP)})
+        if hits: rep.bad("R05.12", "specs-dropped", "the rendered --core / --bump-core ... specs pass through %s before they reach the duplicate-index check: a spec written twice is silently applied once instead of being rejected" % hits, rts.where())
+        else: rep.ok("R05.12", "every index spec given on the command line reaches the spec parser (rendered one to one, in order)", nontrivial_key="specs1to1")
     # ---- R05.11 the argument pre-check of --bump-<section> accepts every index spelling the spec parser understands ----------------------
     pi2 = zfn(F, "<impl crate::version::zerv::core::Zerv>::parse_index")
     vi = [f_ for p_, f_ in F.fns.items() if p_.endswith("::is_valid_index") and "cli::version::args" in p_ and f_.kind != "closure"]
